@@ -565,10 +565,12 @@ impl Stats {
     }
 }
 
-fn count_faults(st: &mut Stats, o: &InvOut) {
+pub fn count_faults(st: &mut Stats, o: &InvOut) {
     for op in &o.ops {
         if op.fault != "-" && op.fault != "NA" {
             *st.faults.entry(op.fault.clone()).or_default() += 1;
+            // where it landed: operation kind x fault kind (reported as faults_by_operation)
+            *st.probes.entry(format!("fault:{}:{}", op.kind, op.fault)).or_default() += 1;
         }
     }
 }
@@ -1127,13 +1129,26 @@ pub fn main_c19(tier_name: &str, seed: u64) -> i32 {
         println!("c19: {} failing histories; minimising the first of each clause", all_fails.len());
         let mut oracle = Oracle::new(oracle_keys(seed));
         let root = format!("{}/shrink", scratch.path);
+        // per clause: minimise failing histories in order until one is found that is NOT a listed
+        // known finding (so that a known finding never hides a different violation of the clause)
         let mut done: BTreeSet<&'static str> = BTreeSet::new();
+        let mut tried: BTreeMap<&'static str, u32> = BTreeMap::new();
         for (_, scn, f) in &all_fails {
-            if !done.insert(f.clause) || done.len() > 3 {
+            if done.contains(f.clause) || (done.len() >= 3 && !tried.contains_key(f.clause)) {
                 continue;
             }
+            let n = tried.entry(f.clause).or_default();
+            if *n >= 8 {
+                continue;
+            }
+            *n += 1;
             let (s, sf) = shrink(&root, scn, f, &mut oracle);
-            violations.push(to_violation("C19", "c19", &s, &sf, seed));
+            let v = to_violation("C19", "c19", &s, &sf, seed);
+            let is_known = known.matches(&v).is_some();
+            violations.push(v);
+            if !is_known {
+                done.insert(f.clause);
+            }
         }
     }
 
@@ -1164,6 +1179,9 @@ pub fn main_c19(tier_name: &str, seed: u64) -> i32 {
     extra.insert("skipped_hangs".into(), json!(st.hangs));
     extra.insert("sim_ops_intercepted".into(), json!(st.ops));
     extra.insert("faults_fired".into(), json!(st.faults));
+    let by_op: BTreeMap<String, u64> = st.probes.iter().filter(|(k, _)| k.starts_with("fault:")).map(|(k, v)| (k[6..].to_string(), *v)).collect();
+    st.probes.retain(|k, _| !k.starts_with("fault:"));
+    extra.insert("faults_by_operation".into(), json!(by_op));
     extra.insert("probes".into(), json!(st.probes));
     extra.insert("fault_enumeration".into(), json!({"base_histories": tr.enum_bases, "single_fault_placements": enum_placements, "invocations": enum_runs, "exhaustive_over": "every operation index x every applicable fault kind of the last invocation of each base history (1-byte reads of JSON input strided to <=24 per invocation)"}));
     extra.insert("runs_per_hour".into(), json!(((st.invocations as f64) / wall * 3600.0) as u64));
